@@ -126,9 +126,20 @@ func polOpt(p int, node bool) []el.Option {
 }
 
 // ---------- harness node ----------
+// herr is the error a harness node returns; some of them wrap a context error of the node's own making (a node with an
+// internal timeout), which must be reported as a warning like any other error while Send's own context is live
 type herr struct{ id int }
 
 func (e *herr) Error() string { return fmt.Sprintf("harness error %d", e.id) }
+func (e *herr) Unwrap() error {
+	switch e.id % 3 {
+	case 0:
+		return context.DeadlineExceeded
+	case 1:
+		return context.Canceled
+	}
+	return nil
+}
 
 type hnode struct {
 	obj    int
@@ -262,14 +273,14 @@ type rec struct {
 	rnd       *hc.Rand
 
 	done, cancelled, collectorLeft, returned, closeSeen bool
-	delivered, recvd, starts, exits, inProcess        int
-	last, cancelTime, returnTime                      time.Time
-	holdTimeouts, recvTimeouts, unknownRefs           int
-	event0ok                                          bool
-	sentType                                          el.EventType
-	payload                                           interface{}
-	t0                                                time.Time
-	gateReleased                                      bool
+	delivered, recvd, starts, exits, inProcess          int
+	last, cancelTime, returnTime                        time.Time
+	holdTimeouts, recvTimeouts, unknownRefs             int
+	event0ok                                            bool
+	sentType                                            el.EventType
+	payload                                             interface{}
+	t0                                                  time.Time
+	gateReleased                                        bool
 }
 
 func (r *rec) internEv(e *el.Event) int {
